@@ -52,6 +52,9 @@ def hand_written():
     full = [
         {"d": "type", "t": EN("Mode", ("MODE_A", 1), ("MODE_B", None), ("MODE_C", 0x10))},
         {"d": "type", "t": ST("Pair", M(S("uint")), M(S("char"), 16))},
+        # two named enums of the same shape, used by equally tagged items in two places (the generated types must stay apart)
+        {"d": "type", "t": EN("ModeA", ("A_ONE", 1), ("A_TWO", 2))},
+        {"d": "type", "t": EN("ModeB", ("B_ONE", 1), ("B_TWO", 2))},
         {"d": "type", "t": TS("Options", TG("OPT_A", M(S("int"))), TG("OPT_B", M(ST("Pair", ref=True)), repeat=True),
                               TG("OPT_C", M(S("uchar")), block=True, seq=True), TG("OPT_NONE"))},
         {"d": "block", "tag": "IF_DATA", "seq": False, "m": M(TS("", kind="tu", *[
@@ -65,6 +68,8 @@ def hand_written():
             TG("UNION", M(TS("", TG("U_A", M(S("uint"))), TG("U_B", M(S("char"), 10)), TG("U_BLK", M(S("float")), block=True), kind="tu"))),
             TG("NUMBERS", M(S("int64")), seq=True),
             TG("EMPTY"),
+            TG("CHAN_A", M(TS("", TG("MODE", M(EN("ModeA", ref=True)))))),
+            TG("CHAN_B", M(TS("", TG("MODE", M(EN("ModeB", ref=True)))))),
         ]))},
     ]
     small = [
